@@ -15,7 +15,7 @@ DBL_MAX = sys.float_info.max
 VALUES = [0.0, -0.0, 1.0, -1.0, 10.0, 100.0, 1e10, 120.0, 0.1, 0.5, 1.5, 1e-10, 5e-11, 4.9e-11, 1e-11, 1e-12, 5e-324, 2.2250738585072014e-308,
           1.00000000005, 1.00000000004, 0.12345678905, 123456.7890123456, 1e15 + 0.3, 2.0 ** 53, 2.0 ** 53 + 2, 1e16, 1.2345678901234566e+16,
           9.007199254740993e+15, 1e22, 1.7976931348623157e+308, -1.7976931348623157e+308, 8.98846567431158e+307, 1e300 / 3, INF, -INF,
-          3.141592653589793, -2.718281828459045, 1e-5, 123456789.123456789,
+          3.141592653589793, -2.718281828459045, 1e-5, 123456789.123456789, -0.5, -0.25, -1e-5, -0.999999, -5e-11,
           0, 1, -1, 10, 100, 1000000, 2 ** 31, 2 ** 53 + 1, 10 ** 20, -10 ** 20, True]
 STAMPS = [0, 1, 1700000060, 2 ** 31, 2 ** 32 - 1, 1700000060.75, 0.999, 59.5]
 NAMES = ['a', 'a.b.c', 'é.ü', '\U0001F600', 'x;t=v', 'a/b', 'carbon.agents.h-a.metricsReceived']
